@@ -654,3 +654,17 @@ Example modulo_nonvacuous_asis :
   /\ gap_class_v false [w_B; w_A; w_m] "A" = false /\ resolve_v false false [w_B; w_A; w_m] "A" = Some "m.A"
   /\ gap_class_v true [w_init; w_A2; w_m] "p" = false /\ resolve_v true false [w_init; w_A2; w_m] "p" = Some "m.A(p)".
 Proof. vm_compute. repeat split. Qed.
+
+(* ---------------------------------------------------------------- decorators *)
+(* Decorator.callable_path of @a.b, @a.b(...), @a.b(...)(...): the resolved root of the head chain followed by its segments,
+   whatever the calls *)
+Theorem callable_path_head : forall sk c d,
+  callable_path_v sk c d = dotted_from (canonical_v sk c (aroot (deco_head d))) (asegs (deco_head d)).
+Proof.
+  intros sk c d. induction d as [x|d IH]; simpl; [apply attribute_chain_segmentwise_v | exact IH].
+Qed.
+Example callable_path_values :
+  callable_path_v true [w_B; w_A; w_m] (DCall (DCall (DChain (AAttr (AAttr (AName "x") "a") "b")))) = "m.x.a.b"
+  /\ callable_path_v false [w_B; w_A; w_m] (DChain (AAttr (AName "x") "a")) = "m.A.x.a"
+  /\ callable_path_v true [w_m] (DCall (DChain (AName "staticmethod"))) = "staticmethod".
+Proof. vm_compute. repeat split. Qed.
